@@ -21,7 +21,7 @@ SCALES = [2, -1, 1j, 0.5 + 1j, 1e-3, 4e9]
 
 
 def budget_s(tier):
-    return 300 if tier == "quick" else 3600
+    return 1800 if tier == "quick" else 7200
 
 
 LEVELS_QUICK = [
